@@ -67,7 +67,7 @@ Qed.
 Lemma send_pages_with_plain a ps :
   peq (send_pages_with a (map (fun p => ([], p)) ps)) (send_pages a ps).
 Proof.
-  unfold send_pages_with, send_pages, transfer. rewrite map_map. cbn [fst snd prelude].
+  unfold send_pages_with, send_pages_gen, send_pages, transfer. rewrite map_map. cbn [fst snd prelude].
   rewrite <- (map_map p_bytes (fun it => (Ret tt, it))).
   apply peq_bind; [apply transfer_loop_with_plain|]. intros _. apply peq_refl.
 Qed.
